@@ -180,6 +180,43 @@ def run_kernel_views(case, ctx, mon):
     mon.nontrivial(True)
 
 
+def zero_key_reference(n, seed):
+    """fasthash64 of n zero bytes in closed form: mix(0) == 0, so every zero block only multiplies the state by m."""
+    M = hashes_ref.M64
+    h = (seed ^ ((n * hashes_ref.FH_M) & M)) & M
+    h = (h * pow(hashes_ref.FH_M, n // 8, 1 << 64)) & M
+    if n % 8:
+        h = (h * hashes_ref.FH_M) & M
+    return hashes_ref._mix(h)
+
+
+def huge_keys(ctx, mon):
+    """Keys of 2^31 .. 2^32+ bytes (thorough tier, one shard): lengths that no longer fit a 32-bit integer.  All-zero keys have a
+    closed-form reference, so no 4 GiB reference computation is needed."""
+    s = sk()
+    for n in (2**31 + 3, 2**32 - 1, 2**32, 2**32 + 29):
+        case = {"huge_zero_key": n}
+        mon.begin_case(case)
+        for small in (0, 1, 7, 8, 9, 4096 + 5):  # sanity of the closed form against the ordinary reference
+            mon.check(zero_key_reference(small, 11) == hashes_ref.fasthash64(bytes(small), 11), "harness:closed-form-zero-key-reference", n=small)
+        try:
+            key = bytes(n)
+        except MemoryError:
+            mon.notes.append(f"not enough memory for a {n}-byte key; skipped")
+            mon.end_case()
+            continue
+        for seed in (0, 2**63 + 1):
+            got = int(s.hashes.fasthash64(key, seed))
+            want = zero_key_reference(n, seed)
+            mon.check(got == want, "fasthash64==reference(keys of 2^31..2^32+ bytes)", n=n, seed=seed, got=got, want=want)
+            got32 = int(s.hashes.fasthash32(key, seed))
+            mon.check(got32 == (want - (want >> 32)) & 0xFFFFFFFF, "fasthash32==reference(keys of 2^31..2^32+ bytes)", n=n, seed=seed)
+        del key
+        mon.count("huge_keys")
+        mon.nontrivial(True)
+        mon.end_case()
+
+
 def fixed_vectors(ctx, mon):
     s = sk()
     case = {"fixed": "published-vectors"}
@@ -284,6 +321,8 @@ def run(ctx, mon):
         second_interpreter(ctx, mon)
     if ctx.thorough:
         c_reference(ctx, mon)
+    if ctx.thorough and ctx.shard == 1 and os.environ.get("VERIF_HUGE_KEYS", "1") == "1":
+        huge_keys(ctx, mon)
     rng = ctx.rng("kernel-slices")
     ks = []
     for i in range(120 if ctx.quick else 600):
